@@ -181,6 +181,13 @@ def main(argv=None):
             else:
                 m["info"].setdefault(k, v)
     outs = list(merged.values())
+    # a cover goal is a reachability witness for the contract as a whole: one input case reaching it suffices
+    for o in outs:
+        reached = {r["name"].split("@")[0] for r in o["results"] if r["kind"] in ("cover", "canary") and r["status"] == "proved"}
+        for r in o["results"]:
+            if r["kind"] in ("cover", "canary") and r["status"] != "proved" and r["name"].split("@")[0] in reached:
+                r["status"] = "proved"
+                r["detail"] = "reached / refuted in another input case"
 
     errors, undecided, violations, known_seen = [], [], [], []
     n_obl = n_dis = 0
@@ -228,7 +235,7 @@ def main(argv=None):
                         conf, rep, _ = confirm(c, rr, a.src)
                     known_seen.append({"id": k["id"], "obligation": r["name"], "native_replay_confirms": conf,
                                        "input": k.get("model")})
-                    print(f"KNOWN-FINDING: property={prop} {f['id']} {f['what']}")
+                    print(f"KNOWN-FINDING: property={f['property']} {f['id']} {f['what']}")
             if r["status"] == "proved":
                 n_dis += 1
                 if len(samples) < 4 and r["kind"] in ("ensures", "raises"):
